@@ -5,14 +5,19 @@
 (*   regd      keys of the last Update event (emitted by a listener that    *)
 (*             runs after MultiClientConn.OnConnectionListUpdate, under the *)
 (*             table lock)                                                  *)
+(*   liveFrom[k] line of Cmd Add k (logged before the connection is handed  *)
+(*             to the pool: a racing call can be answered by k before the   *)
+(*             harness's own listener has logged the Update)                *)
 (*   killed    sessions the harness has killed (Cmd Kill is logged before   *)
 (*             the kill), deadFrom[k] = that line                           *)
 (*   the SET of a line = regd \ killed : sessions registered and alive      *)
 (*   lastEmpty the last line at which the set was empty                     *)
 (*   rstart[r], rarr[r]  line at which call r was issued / session whose    *)
 (*             server handler it reached                                    *)
+(* Calls: "g<i>" held inside the handler, "b.." bursts at quiescent points, *)
+(* "c<i>" background calls racing with the changes.                         *)
 (* Clauses (register 1, <<line, clause, call, x>>):                         *)
-(*   served   an OK call was answered by a session that was not in the set  *)
+(*   served   an OK call was answered by a session that was not registered  *)
 (*            at any point of the call, or not by the one it reached        *)
 (*   unavail  a call failed Unavailable although the set was non-empty      *)
 (*            during the whole call and the session it had reached was not  *)
@@ -30,32 +35,39 @@
 EXTENDS Integers, Sequences, FiniteSets, TLC, Json
 Trace == ndJsonDeserialize("trace.ndjson")
 ASSUME TLCSet(1, {})
-VARIABLES l, regd, killed, deadFrom, liveFrom, lastEmpty, rstart, rarr
-vars == <<l, regd, killed, deadFrom, liveFrom, lastEmpty, rstart, rarr>>
-hv == <<regd, killed, deadFrom, liveFrom, rstart, rarr>>
+VARIABLES l, regd, killed, deadFrom, liveFrom, unregAt, lastEmpty, rstart, rarr
+vars == <<l, regd, killed, deadFrom, liveFrom, unregAt, lastEmpty, rstart, rarr>>
+hv == <<regd, killed, deadFrom, liveFrom, unregAt, rstart, rarr>>
 FlagAll(S) == IF S = {} THEN TRUE ELSE TLCSet(1, TLCGet(1) \cup S)
 SetOf(q) == {q[i] : i \in 1..Len(q)}
 Put(f, k, v) == [x \in DOMAIN f \cup {k} |-> IF x = k THEN v ELSE f[x]]
-Init == /\ l = 1 /\ regd = {} /\ killed = {} /\ deadFrom = <<>> /\ liveFrom = <<>> /\ lastEmpty = 0
+Init == /\ l = 1 /\ regd = {} /\ killed = {} /\ deadFrom = <<>> /\ liveFrom = <<>> /\ unregAt = <<>> /\ lastEmpty = 0
         /\ rstart = <<>> /\ rarr = <<>>
 
 OnUpdate(e) ==
   LET keys == SetOf(e.keys) IN
   /\ regd' = keys
-  /\ liveFrom' = [k \in DOMAIN liveFrom \cup keys |-> IF k \in DOMAIN liveFrom THEN liveFrom[k] ELSE l]
+  /\ UNCHANGED liveFrom
+  /\ unregAt' = [k \in DOMAIN unregAt \cup (regd \ keys) |-> IF k \in DOMAIN unregAt THEN unregAt[k] ELSE l]
   /\ FlagAll(IF e.can # (keys # {}) THEN {<<l, "cmc", "", Cardinality(keys)>>} ELSE {})
   /\ UNCHANGED <<killed, deadFrom, rstart, rarr>>
 
 OnRpcEnd(e) ==
   LET r == e.r
       s == IF r \in DOMAIN rstart THEN rstart[r] ELSE l
-      \* session k belonged to the set at some line of [s, l]
-      inSetDuring(k) == k \in DOMAIN liveFrom /\ liveFrom[k] <= l /\ (k \notin killed \/ deadFrom[k] >= s)
+      \* session k existed and was registered at some line of [s, l]
+      \* (a session that was told to die keeps answering until it has really shut down, so the upper end is its
+      \* unregistration, not the kill command)
+      inSetDuring(k) == k \in DOMAIN liveFrom /\ liveFrom[k] <= l /\ (k \notin DOMAIN unregAt \/ unregAt[k] >= s)
       reached == IF r \in DOMAIN rarr THEN rarr[r] ELSE -1
       killedUnder == reached \in killed /\ deadFrom[reached] >= s
       emptyDuring == lastEmpty >= s
+      \* a background call ("c..") races with the changes: it may have been sent on a session that was dead but still
+      \* registered at some point of the call (nothing tells the client before the transport notices)
+      racing == SubSeq(r, 1, 1) = "c"
+      staleDuring == \E k \in killed : k \notin DOMAIN unregAt \/ unregAt[k] >= s
   IN /\ FlagAll(CASE e.code = "OK" -> IF inSetDuring(e.k) /\ reached = e.k THEN {} ELSE {<<l, "served", r, e.k>>}
-                  [] e.code = "Unavailable" -> IF emptyDuring \/ killedUnder THEN {} ELSE {<<l, "unavail", r, reached>>}
+                  [] e.code = "Unavailable" -> IF emptyDuring \/ killedUnder \/ (racing /\ staleDuring) THEN {} ELSE {<<l, "unavail", r, reached>>}
                   [] OTHER -> {<<l, "rpcerr", r, 0>>})
      /\ UNCHANGED hv
 
@@ -68,12 +80,15 @@ OnQuiet(e) ==
   /\ UNCHANGED hv
 
 Step(e) ==
-  CASE e.ev = "Config" -> /\ regd' = {} /\ killed' = {} /\ deadFrom' = <<>> /\ liveFrom' = <<>> /\ rstart' = <<>> /\ rarr' = <<>>
+  CASE e.ev = "Config" -> /\ regd' = {} /\ killed' = {} /\ deadFrom' = <<>> /\ liveFrom' = <<>> /\ unregAt' = <<>>
+                          /\ rstart' = <<>> /\ rarr' = <<>>
     [] e.ev = "Update" -> OnUpdate(e)
+    [] e.ev = "Cmd" /\ e.a = "Add" -> /\ liveFrom' = Put(liveFrom, e.k, l)     \* logged before the conn is handed to the pool
+                                       /\ UNCHANGED <<regd, killed, deadFrom, unregAt, rstart, rarr>>
     [] e.ev = "Cmd" /\ e.a = "Kill" -> /\ killed' = killed \cup {e.k} /\ deadFrom' = Put(deadFrom, e.k, l)
-                                        /\ UNCHANGED <<regd, liveFrom, rstart, rarr>>
-    [] e.ev = "RpcStart" -> rstart' = Put(rstart, e.r, l) /\ UNCHANGED <<regd, killed, deadFrom, liveFrom, rarr>>
-    [] e.ev = "RpcArrive" -> rarr' = Put(rarr, e.r, e.k) /\ UNCHANGED <<regd, killed, deadFrom, liveFrom, rstart>>
+                                        /\ UNCHANGED <<regd, liveFrom, unregAt, rstart, rarr>>
+    [] e.ev = "RpcStart" -> rstart' = Put(rstart, e.r, l) /\ UNCHANGED <<regd, killed, deadFrom, liveFrom, unregAt, rarr>>
+    [] e.ev = "RpcArrive" -> rarr' = Put(rarr, e.r, e.k) /\ UNCHANGED <<regd, killed, deadFrom, liveFrom, unregAt, rstart>>
     [] e.ev = "RpcEnd" -> OnRpcEnd(e)
     [] e.ev = "Quiet" -> OnQuiet(e)
     [] e.ev = "Spread" -> /\ FlagAll(IF ~e.broken /\ ~(SetOf(e.table) \subseteq SetOf(e.served))
